@@ -637,8 +637,8 @@ fn run(run: &mut Run) {
     run.assume("MAG other than 1, absolute flags, nodes, duplicate struct names, two different labels on one shape, labels in a path's cap/corner zones are not generated");
     run.assume("an import error on a well-formed library is accepted by the statement and counted as refused");
     run.min_nontrivial = 200;
-    run.explore("import", run.tier.pick(12_000, 250_000), 900, &main_case);
-    run.explore("malformed", run.tier.pick(3_000, 40_000), 900, &malformed_case);
+    run.explore("import", run.tier.pick(16_000, 250_000), 900, &main_case);
+    run.explore("malformed", run.tier.pick(10_000, 60_000), 900, &malformed_case);
 }
 fn case(sub: &str) -> Option<Box<CaseFn<'static>>> {
     match sub {
